@@ -64,7 +64,7 @@ def run(chk):
             if cur is not None and 0xD3 in cur["stream"] and feeds >= 2:
                 nontriv.add(json.dumps([cur["stream"], cur["style"]]))
     if delivered < 100:
-        raise ToolError("vacuity: only %d frames delivered over all sessions" % delivered)
+        chk.vacuity("vacuity: only %d frames delivered over all sessions" % delivered)
     chk.cov["distinct_nontrivial"] = len(nontriv)
     return chk.finish("model_checking", RULE, extra={"frames_delivered": delivered})
 
